@@ -106,8 +106,10 @@ impl Problem for TProblem {
     fn transition_cost(&self, src: &St, dst: &St, d: Decision) -> isize {
         let mut best: Option<isize> = None;
         for b in src.0.iter() {
-            for (val, _, cost) in self.inst.trans[d.variable.0][*b as usize].iter() {
-                if *val == d.value { best = Some(match best { None => *cost, Some(c) => c.max(*cost) }); }
+            // the cost READS the destination: only arcs landing inside `dst` count. When the library passes dst = transition(src, d), as the
+            // Problem contract says, every arc qualifies (same value as the model's cost); a wrong `dst` changes the objective and is seen by C06-C08
+            for (val, tgt, cost) in self.inst.trans[d.variable.0][*b as usize].iter() {
+                if *val == d.value && dst.0.contains(tgt) { best = Some(match best { None => *cost, Some(c) => c.max(*cost) }); }
             }
         }
         let r = best.unwrap_or(0);
